@@ -18,7 +18,7 @@
    Quantifiers: every configuration (any index function, any batch semantics), every initial bucket,
    every batch stream, any number of readers with arbitrary search programs, every schedule. *)
 From Coq Require Import List NArith ZArith Arith Bool.
-From Semadb Require Import Bytes Value Obs Model_C01 Model_C09 Proofs_C09.
+From Semadb Require Import Bytes Value Obs Model_C01 Model_C09 Proofs_C09 Proofs_C09b.
 From Semadb Require Run_C09.
 Import ListNotations.
 Open Scope nat_scope.
@@ -176,6 +176,66 @@ Theorem c09_evict_stale_refuted :
 Proof. exact evict_stale_refuted. Qed.
 Print Assumptions c09_evict_stale_refuted.
 
+(* ---- the forced schedules of the check (harness/c09forced.go): the writer is stopped INSIDE its write
+   transaction -- it has write-locked the registered cache cid and updated it in place to the index of the
+   version it is about to commit (nx = Some _) or is going to roll back (nx = None); the storage has not
+   committed.  ANY state of that shape (not only reachable ones; whatever the shared cache holds, whatever
+   the other readers are doing), any idle reader r with any search program p: letting r alone run, after
+   finitely many steps (and for every larger number: a finished reader does not move) its search has ended
+   with snapshot = the current committed version and outcome = exactly the sequential answer on it -- it
+   took a private cold cache, so it saw nothing of the writer's uncommitted update -- and nothing else
+   has changed: not the heap (so not the write-locked cache), not the committed versions, not the
+   writer's phase or its remaining batches, no other reader; the manager entry only if the program itself
+   gives up (`answer` = FailOther: With scraps the cache of that name -- the manager entry the WRITER is
+   holding, C11's finding). *)
+Theorem c09_inside_write_window :
+  forall (cfg : config) (st : state) (cid : nat) (nx : option pstore) (r : nat) (p : prog),
+    st_crashed st = false ->
+    st_wph st = WInTx cid nx -> st_mgr st = Some cid ->
+    nth_error (st_rs st) r = Some (RIdle p) ->
+    exists n0, forall n, n0 <= n ->
+      let st' := run cfg (repeat (TReader r) n) st in
+      nth_error (st_rs st') r = Some (RDone (cur_snapshot st) (answer cfg p (st_cur st))) /\
+      st_crashed st' = false /\
+      st_heap st' = st_heap st /\ st_hist st' = st_hist st /\ st_cur st' = st_cur st /\
+      st_wph st' = st_wph st /\ st_todo st' = st_todo st /\
+      (forall r', r' <> r -> nth_error (st_rs st') r' = nth_error (st_rs st) r') /\
+      st_mgr st' = match answer cfg p (st_cur st) with FailOther => None | _ => Some cid end.
+Proof. exact inside_write_window. Qed.
+Print Assumptions c09_inside_write_window.
+
+(* ---- the seeded defect "the writer releases the cache lock before the storage commit" (codes 171 / 191).
+   `w_early_unlock` is the state of the toy configuration in which the writer has updated the registered
+   cache to the index of the next version w_p1 and is inside its transaction -- with the write lock
+   dropped (st_wph = WIdle instead of WInTx 0 (Some w_p1), nothing else differs): the only committed
+   version is w_p0, the registered cache is coherent with w_p1 and not write-locked.  A search run
+   start-to-end from there acquires the shared cache, finds node 2 under key 0 and fails the lookup in
+   its own snapshot: FailNotExist, although it answers Ok on the only committed version; from the state
+   WITH the lock held the same five steps end in that Ok answer (c09_inside_write_window).
+   This state is NOT a state of the model: the model's writer unlocks after the storage commit
+   (WInTx -> WCommitted -> WIdle), and in every state reachable from a cold start by any schedule every
+   item of every cache object is an entry of the index of a COMMITTED version unless the object is
+   write-locked by the writer inside its transaction (lemma c09_lock_covers_commit in Proofs_C09b.v, for
+   all configurations) -- hence the last conjunct: no initial bucket, batch stream, readers and
+   schedule reach it. *)
+Theorem c09_early_unlock_refuted :
+  let cfg := toy_cfg true in
+  let locked := run cfg [TWriter] (init w_p0 [w_batch] [w_q_get]) in
+  let st := w_early_unlock in
+  st_wph locked = WInTx 0 (Some w_p1) /\ st_wph st = WIdle /\
+  st = mkState (st_hist locked) (st_cur locked) (st_heap locked) (st_mgr locked) WIdle
+               (st_todo locked) (st_rs locked) (st_crashed locked) /\
+  committed st = [w_p0] /\ st_mgr st = Some 0 /\ wheld st 0 = false /\
+  (exists c, nth_error (st_heap st) 0 = Some c /\ coherent cfg w_p1 c /\
+             idx_get (c_items c) 0%N = Some [2%N; 1%N] /\
+             idx_get (cfg_index cfg (st_cur st)) 0%N = Some [1%N]) /\
+  nth_error (st_rs (run cfg (repeat (TReader 0) 5) st)) 0 = Some (RDone (0, w_p0) FailNotExist) /\
+  answer cfg w_q_get (st_cur st) = Ok [(1%N, (w_id1, w_doc))] /\
+  nth_error (st_rs (run cfg (repeat (TReader 0) 5) locked)) 0 = Some (RDone (0, w_p0) (Ok [(1%N, (w_id1, w_doc))])) /\
+  (forall g p0 bs progs sched, run (toy_cfg g) sched (init p0 bs progs) <> st).
+Proof. exact early_unlock_refuted. Qed.
+Print Assumptions c09_early_unlock_refuted.
+
 (* ------------------------------------------------------------------ the hypotheses are satisfiable *)
 (* a serial schedule with a warm-up reader, a full write transaction and two more readers: all finish
    with the sequential answers (the last two see the inserted point) *)
@@ -218,3 +278,33 @@ Example ex_sound :
   forall ps, In ps (seq_versions (toy_cfg true) [w_batch] w_p0) ->
              exists rows, answer (toy_cfg true) w_q_scan ps = Ok rows.
 Proof. intros ps [<-|[<-|[]]]; vm_compute; eexists; reflexivity. Qed.
+
+(* the hypotheses of c09_inside_write_window on a reachable state: the writer has locked and updated the
+   registered cache (key 0 already lists the node 2 it is about to commit) and is stopped inside its
+   transaction; the idle reader's search (point read + full scan), run start to end, answers from the
+   only committed version w_p0; the write-locked cache, the writer and the manager entry are untouched *)
+Example ex_inside_window :
+  let cfg := toy_cfg true in
+  let st := run cfg [TWriter] (init w_p0 [w_batch] [w_q_scan]) in
+  let st' := run cfg (repeat (TReader 0) 6) st in
+  st_crashed st = false /\ st_wph st = WInTx 0 (Some w_p1) /\ st_mgr st = Some 0 /\
+  nth_error (st_rs st) 0 = Some (RIdle w_q_scan) /\
+  (exists c, nth_error (st_heap st) 0 = Some c /\ idx_get (c_items c) 0%N = Some [2%N; 1%N]) /\
+  answer cfg w_q_scan (st_cur st) = Ok [(1%N, (w_id1, w_doc))] /\
+  nth_error (st_rs st') 0 = Some (RDone (0, w_p0) (Ok [(1%N, (w_id1, w_doc))])) /\
+  st_heap st' = st_heap st /\ st_wph st' = st_wph st /\ st_mgr st' = Some 0.
+Proof.
+  vm_compute. repeat (split; [reflexivity|]).
+  split; [eexists; split; reflexivity|]. repeat (split; [reflexivity|]). reflexivity.
+Qed.
+
+(* the same with a batch that is going to roll back (nx = None: the id exists already) *)
+Example ex_inside_window_rollback :
+  let cfg := toy_cfg true in
+  let st := run cfg [TWriter] (init w_p0 [w_batch_bad] [w_q_scan]) in
+  let st' := run cfg (repeat (TReader 0) 6) st in
+  st_crashed st = false /\ st_wph st = WInTx 0 None /\ st_mgr st = Some 0 /\
+  nth_error (st_rs st) 0 = Some (RIdle w_q_scan) /\
+  nth_error (st_rs st') 0 = Some (RDone (0, w_p0) (Ok [(1%N, (w_id1, w_doc))])) /\
+  st_heap st' = st_heap st /\ st_wph st' = st_wph st /\ st_mgr st' = Some 0.
+Proof. vm_compute. repeat (split; [reflexivity|]). reflexivity. Qed.
